@@ -788,6 +788,48 @@ pub fn run_c04(ctx: &Ctx) -> i32 {
     finish(ctx, out, fin)
 }
 
+/// A block whose zigzag sum (= the Rice quotient sum of a fixed order-0 candidate when
+/// prc.max_parameter = 0) is k * 2^32 + delta, with the configuration that makes that candidate the
+/// only predicted one.
+pub fn wrap32_case(rng: &mut Rng, idx: u64) -> Option<Case> {
+    let (bps, n) = *rng.pick(&[(24usize, 4096usize), (24, 1024), (24, 4608), (20, 16_384), (24, 32_767)]);
+    let k = 1 + (idx % 3);
+    let delta = *rng.pick(&[0u64, 1, 7, 1000, 40_000, 90_000]);
+    let target: u64 = k * (1u64 << 32) + delta;
+    let umax = (1u64 << bps) - 1;
+    let base = target / n as u64;
+    if base + 2 > umax {
+        return None;
+    }
+    let mut u: Vec<u64> = vec![base; n];
+    let rem = (target - base * n as u64) as usize;
+    for x in u.iter_mut().take(rem) {
+        *x += 1;
+    }
+    // sum-preserving perturbation
+    let spread = (umax - base - 2).min(base).min(1 << 18);
+    for _ in 0..n {
+        let (i, j) = (rng.usize_below(n), rng.usize_below(n));
+        let d = rng.below(spread + 1);
+        if i != j && u[i] + d <= umax && u[j] >= d {
+            u[i] += d;
+            u[j] -= d;
+        }
+    }
+    debug_assert_eq!(u.iter().sum::<u64>(), target);
+    let samples: Vec<i32> = u.iter().map(|v| if v & 1 == 0 { (v >> 1) as i32 } else { -(((v >> 1) + 1) as i64) as i32 }).collect();
+    let mut cfg = config::Encoder::default();
+    cfg.multithread = false;
+    cfg.block_size = n;
+    cfg.subframe_coding.use_constant = false;
+    cfg.subframe_coding.use_lpc = false;
+    cfg.subframe_coding.use_fixed = true;
+    cfg.subframe_coding.fixed.max_order = 0;
+    cfg.subframe_coding.fixed.order_sel = if idx % 2 == 0 { config::OrderSel::BitCount } else { config::OrderSel::ApproxEnt { partitions: 16 } };
+    cfg.subframe_coding.prc.max_parameter = 0;
+    Some(Case { audio: Arc::new(Audio { channels: 1, bps, rate: 44100, samples, recipe: format!("zigzag-sum={k}*2^32+{delta}") }), cfg, block: n, mode: FillMode::Int, hint: true })
+}
+
 pub fn run_c09(ctx: &Ctx) -> i32 {
     let mut out = Outcome::default();
     let n = |q: u64, t: u64| ctx.tier.pick(q * 3, t * 4);
@@ -808,42 +850,7 @@ pub fn run_c09(ctx: &Ctx) -> i32 {
     let nw = ctx.tier.pick(8, 64);
     run_cases(ctx, "wrap32", nw, &mut out, |idx, out| {
         let mut rng = Rng::for_case(ctx.seed, "C09.wrap32", idx);
-        let (bps, n) = *rng.pick(&[(24usize, 4096usize), (24, 1024), (24, 4608), (20, 16_384), (24, 32_767)]);
-        let k = 1 + (idx % 3);
-        let delta = *rng.pick(&[0u64, 1, 7, 1000, 40_000, 90_000]);
-        let target: u64 = k * (1u64 << 32) + delta;
-        let umax = (1u64 << bps) - 1;
-        let base = target / n as u64;
-        if base + 2 > umax {
-            return;
-        }
-        let mut u: Vec<u64> = vec![base; n];
-        let rem = (target - base * n as u64) as usize;
-        for x in u.iter_mut().take(rem) {
-            *x += 1;
-        }
-        // sum-preserving perturbation
-        let spread = (umax - base - 2).min(base).min(1 << 18);
-        for _ in 0..n {
-            let (i, j) = (rng.usize_below(n), rng.usize_below(n));
-            let d = rng.below(spread + 1);
-            if i != j && u[i] + d <= umax && u[j] >= d {
-                u[i] += d;
-                u[j] -= d;
-            }
-        }
-        debug_assert_eq!(u.iter().sum::<u64>(), target);
-        let samples: Vec<i32> = u.iter().map(|v| if v & 1 == 0 { (v >> 1) as i32 } else { -(((v >> 1) + 1) as i64) as i32 }).collect();
-        let mut cfg = config::Encoder::default();
-        cfg.multithread = false;
-        cfg.block_size = n;
-        cfg.subframe_coding.use_constant = false;
-        cfg.subframe_coding.use_lpc = false;
-        cfg.subframe_coding.use_fixed = true;
-        cfg.subframe_coding.fixed.max_order = 0;
-        cfg.subframe_coding.fixed.order_sel = if idx % 2 == 0 { config::OrderSel::BitCount } else { config::OrderSel::ApproxEnt { partitions: 16 } };
-        cfg.subframe_coding.prc.max_parameter = 0;
-        let case = Case { audio: Arc::new(Audio { channels: 1, bps, rate: 44100, samples, recipe: format!("zigzag-sum={k}*2^32+{delta}") }), cfg, block: n, mode: FillMode::Int, hint: true };
+        let Some(case) = wrap32_case(&mut rng, idx) else { return };
         match observe(&case) {
             Ok(obs) => {
                 out.evaluations += 1;
